@@ -52,7 +52,7 @@ def account(ctx, res, cases, which, src):
         ctx.cov.setdefault("rhat_values_checked", 0)
         ctx.cov["rhat_values_checked"] += res["rhat_checked"]
     else:
-        ctx.cov["distinct_nontrivial"] += sum(1 for c in cases if c["def"] and not c["frag"] and c["out"] > 0)
+        ctx.cov["distinct_nontrivial"] += sum(1 for c in cases if c["def"] and not c["frag"] and (c.get("out", 0) > 0 or len(c.get("pairs", [])) > 0))
         for m in res["ess_bad"]:
             ctx.violation("ess " + brief(m), "ESS differs from m n / tau of Stats.tla: %s" % {k: m[k] for k in m if k != "case"},
                           {"direction": "replay", "spec": src, "mismatch": m, "kind": "ess"})
@@ -68,7 +68,7 @@ def account(ctx, res, cases, which, src):
 
 def selftest(ctx, cases, which):
     """Perturb the expectation of one case; the harness must flag it."""
-    c = dict(next(c for c in cases if c["def"] and not c["frag"] and c["out"] > 0 and c["rn"] != c["rd"]))
+    c = dict(next(c for c in cases if c["def"] and not c["frag"] and c.get("out", 0) > 0 and c["rn"] != c["rd"]))
     if which == "rhat":
         c["rn"], c["rnu"] = c["rn"] * 2, c["rnu"] * 2
     else:
